@@ -46,7 +46,14 @@ def run(ctx):
                    (A.FocusedSeq("x", A.Renamed("n", A.Rebuild(A.Alias("Byte"), A.Func("len", A.T("x")))), A.Renamed("x", A.Bytes(A.T("n")))), ({"n": 5}, {"n": 1})),
                    (A.Struct(A.Renamed("h", A.Alias("Byte")), A.Renamed("f", A.FocusedSeq("x", A.Renamed("k", A.Alias("Byte")), A.Renamed("x", A.Array(A.T("k"), A.Alias("Byte")))))), ({"k": 2},)),
                    (A.Struct(A.Renamed("k", A.Alias("Byte")), A.Renamed("s", A.Struct(A.Renamed("x", A.Bytes(A.T("k")))))), ({"k": 2},)),
-                   (A.Sequence(A.Renamed("k", A.Alias("Byte")), A.Bytes(A.T("k"))), ({"k": 2},))):
+                   (A.Sequence(A.Renamed("k", A.Alias("Byte")), A.Bytes(A.T("k"))), ({"k": 2},)),
+                   (A.Struct(A.Renamed("n", A.Alias("Byte")), A.Renamed("body", A.Struct(A.Renamed("data", A.Bytes(A.T("_root", "n")))))), ({"n": 5}, {"n": 0})),
+                   (A.Struct(A.Renamed("k", A.Alias("Byte")), A.Renamed("a", A.Array(2, A.Struct(A.Renamed("d", A.Bytes(A.T("_root", "k"))))))), ({"k": 2},)),
+                   (A.Struct(A.Renamed("h", A.Alias("Byte")), A.Renamed("s", A.Struct(A.Renamed("d", A.Bytes(A.T("_root", "_params", "k")))))), ({"k": 2}, {"k": 0})),
+                   # members that measure by the stream position inside a bit-level region whose size depends on a keyword (the streaming wrapper)
+                   (A.Bitwise(A.Struct(A.Renamed("a", A.Padded(A.Bin("*", K, A.C(8)), A.BitsInteger(8))), A.Renamed("b", A.BitsInteger(8)))), ({"k": 2}, {"k": 3}, {"k": 1})),
+                   (A.Bitwise(A.Struct(A.Renamed("x", A.BitsInteger(A.Bin("*", K, A.C(4)))), A.Renamed("y", A.Aligned(16, A.Alias("Octet"))))), ({"k": 2}, {"k": 4})),
+                   (A.Struct(A.Renamed("h", A.Alias("Byte")), A.Renamed("r", A.BitsSwapped(A.Struct(A.Renamed("p", A.Padded(K, A.Alias("Byte"))), A.Renamed("q", A.Aligned(2, A.Alias("Byte"))))))), ({"k": 2}, {"k": 3}))):
         for kw in kws:
             progs.insert(0, (p, kw))
     fixed = {}
